@@ -309,7 +309,9 @@ def run_impl(case):
     abss = [(p, r) for k, p, r in log if k == 'abspath']
     asked = [[k, cps(p), bool(r)] for k, p, r in log if k != 'abspath']
     if len(abss) != 2:
-        return dict(status=status, error='expected 2 abspath calls, saw %d' % len(abss))
+        # the code no longer normalises root and target with two abspath calls: the tie to the model is broken
+        # (reported as a disagreement); the oracle still judges what was opened
+        abss = [(None, '?'), (None, '?')]
     gate = 'serve' if status in SERVE else MSG.get(body if isinstance(body, str) else '', 'other-%s' % status)
     return dict(status=status, gate=gate, root_norm=cps(abss[0][1] + os.sep), target_norm=cps(abss[1][1]),
                 opened=[cps(p) for p in opened], asked=asked,
@@ -385,8 +387,6 @@ def oracle(case, obs):
     """the property, stated on the implementation: nothing outside realpath(root) is opened or served"""
     if 'status' not in obs:
         return 'static_file did not return a response: %s' % obs
-    if obs.get('error'):
-        return obs['error']
     st = obs['status']
     if st not in (200, 206, 304, 403, 404, 416):
         return 'unexpected status %s' % st
